@@ -1,0 +1,19 @@
+#ifndef FASTOR_VERIF_HOOKS_H
+#define FASTOR_VERIF_HOOKS_H
+
+// Optional route witnesses for external runtime monitors. With FASTOR_VERIF_HOOKS undefined
+// (the default) both macros expand to nothing and the library is unchanged. When defined,
+// the two sink functions must be provided by the program that includes Fastor.
+#ifdef FASTOR_VERIF_HOOKS
+namespace Fastor { namespace verif {
+void route(const char* name);
+void route(const char* name, long value);
+} }
+#define FASTOR_VERIF_ROUTE(name)          ::Fastor::verif::route(name)
+#define FASTOR_VERIF_ROUTE_V(name,value)  ::Fastor::verif::route(name,static_cast<long>(value))
+#else
+#define FASTOR_VERIF_ROUTE(name)
+#define FASTOR_VERIF_ROUTE_V(name,value)
+#endif
+
+#endif // FASTOR_VERIF_HOOKS_H
